@@ -339,6 +339,8 @@ func checkC07(c *Ctx, r *Report) {
 	eofDrainRule(c, r, "C07-drain")
 	// ... and the stream produced must not depend on how the caller split its writes
 	percallRule(c, r, "C07-percall")
+	mirrorRule(c, r, "C07-mirror")
+	codeWidthRule(c, r, newProver(c), "C07-codewidth")
 	r.NotCov = append(r.NotCov, "tree update/rebuild arithmetic, match selection, bit packing, end-of-stream padding: value properties of run-time data")
 	_ = fmt.Sprint
 }
